@@ -623,14 +623,14 @@ class ChebychevHelper(SpectralHelper1D):
         kwargs['norm'] = kwargs.get('norm', 'backward')
         kwargs['overwrite_x'] = kwargs.get('overwrite_x', False)
 
+        _u = u.copy()
         for axis in axes:
 
-            if self.N == u.shape[axis]:
-                _u = u.copy()
-            else:
+            if self.N != u.shape[axis]:
                 # mpi4py-fft implements padding only for FFT, where the frequencies are sorted such that the zeros are
                 # added in the middle rather than the end. We need to resort this here and put the padding in the end.
                 N = self.N
+                u = _u
                 _u = self.xp.zeros_like(u)
 
                 # copy first half
